@@ -1,5 +1,817 @@
 package vc
 
+import (
+	"bytes"
+	"encoding/json"
+	"fmt"
+	"go/types"
+	"os"
+	"os/exec"
+	"path/filepath"
+	"regexp"
+	"strings"
+	"time"
+)
+
+// ---------------------------------------------------------------------------
+// Replay of a counterexample against the real code.
+//
+// 1. ask the deciding solver for the values of the function's inputs
+//    (parameters, and the heap cells they reach) in its model;
+// 2. generate an in-package Go test that builds those inputs, calls the REAL
+//    function (recovering panics) and prints what it observed;
+// 3. inject it with `go test -overlay` (nothing is written under /repo);
+// 4. evaluate the violated clause on the concrete inputs and observed outputs.
+
+type replayInput struct {
+	name  string
+	typ   types.Type
+	terms map[string]string // observation name -> SMT term
+	vals  map[string]string // observation name -> model value
+}
+
 func (e *Engine) replayObligation(o *Obligation) *ReplayResult {
+	c := o.ctx
+	if c == nil || c.Fn == nil || c.Fn.Decl == nil {
+		return nil
+	}
+	if o.Result.Status != "sat" {
+		return &ReplayResult{Summary: "solver gave no model (" + o.Result.Status + ")"}
+	}
+	fi := c.Fn
+	sig := fi.Sig
+	if sig.TypeParams() != nil && sig.TypeParams().Len() > 0 {
+		return &ReplayResult{Summary: "generic function: replay not supported"}
+	}
+	// collect inputs
+	var ins []*replayInput
+	addIn := func(name string, t types.Type) bool {
+		v, ok := c.paramVals[name]
+		if !ok {
+			return false
+		}
+		in := &replayInput{name: name, typ: t, terms: map[string]string{}, vals: map[string]string{}}
+		if !c.replayTerms(in, v) {
+			return false
+		}
+		ins = append(ins, in)
+		return true
+	}
+	var order []string
+	if sig.Recv() != nil {
+		if sig.Recv().Name() == "" || sig.Recv().Name() == "_" {
+			return &ReplayResult{Summary: "unnamed receiver"}
+		}
+		if !addIn(sig.Recv().Name(), sig.Recv().Type()) {
+			return &ReplayResult{Summary: "receiver type not replayable: " + sig.Recv().Type().String()}
+		}
+		order = append(order, sig.Recv().Name())
+	}
+	for i := 0; i < sig.Params().Len(); i++ {
+		p := sig.Params().At(i)
+		if p.Name() == "" || p.Name() == "_" {
+			return &ReplayResult{Summary: "unnamed parameter"}
+		}
+		if !addIn(p.Name(), p.Type()) {
+			return &ReplayResult{Summary: "parameter type not replayable: " + p.Type().String()}
+		}
+	}
+	// get-value
+	var terms []string
+	for _, in := range ins {
+		for _, k := range sortedKeys(in.terms) {
+			terms = append(terms, in.terms[k])
+		}
+	}
+	q := o.Query
+	if q == "" {
+		q = o.BuildQuery("", true)
+	}
+	if len(terms) > 0 {
+		q += "(get-value (" + strings.Join(terms, " ") + "))\n"
+	}
+	r := RunSMT(q, 20, 0, false, []string{o.Result.Solver})
+	if r.Status != "sat" {
+		return &ReplayResult{Summary: "model extraction failed: " + r.Status}
+	}
+	vals := parseGetValue(r.Output, len(terms))
+	if vals == nil && len(terms) > 0 {
+		return &ReplayResult{Summary: "cannot parse get-value output"}
+	}
+	i := 0
+	var inputDesc []string
+	for _, in := range ins {
+		for _, k := range sortedKeys(in.terms) {
+			in.vals[k] = vals[i]
+			i++
+		}
+		inputDesc = append(inputDesc, fmt.Sprintf("%s: %v", in.name, in.vals))
+	}
+	// generate the test
+	src, err := e.genReplayTest(c, ins)
+	if err != nil {
+		return &ReplayResult{Summary: "cannot build inputs: " + err.Error(), Inputs: inputDesc}
+	}
+	out, runErr := e.runOverlayTest(fi, src)
+	res := &ReplayResult{TestSrc: src, Output: truncate(out, 4000), Inputs: inputDesc}
+	m := replayLine.FindStringSubmatch(out)
+	if m == nil {
+		res.Summary = "replay test produced no observation"
+		if runErr != nil {
+			res.Summary += " (" + runErr.Error() + ")"
+		}
+		return res
+	}
+	var obs map[string]any
+	if err := json.Unmarshal([]byte(m[1]), &obs); err != nil {
+		res.Summary = "bad observation JSON"
+		return res
+	}
+	panicked, _ := obs["panic"].(bool)
+	if panicked {
+		msg, _ := obs["panic_msg"].(string)
+		// a Go panic in a function whose contract does not allow one is a violation by itself
+		res.Confirmed = true
+		res.Summary = fmt.Sprintf("CONFIRMED: real %s panics on the model's inputs: %s", shortKey(fi.Key), msg)
+		return res
+	}
+	if o.Kind == "safe" || o.Kind == "pre" {
+		res.Summary = "real function did not panic on the model's inputs; obligation is about an internal condition"
+		return res
+	}
+	if o.Kind == "frame" && strings.HasSuffix(o.Name, "GH_bigval") {
+		// frame on big integers: an operand the contract says is not modified must read the same afterwards
+		for _, in := range ins {
+			before, ok := modelInt(in.vals["big"])
+			if !ok {
+				continue
+			}
+			if pv, _ := modelInt(in.vals["ptr"]); pv == "0" {
+				continue
+			}
+			var after string
+			switch p := obs["post_"+in.name].(type) {
+			case string:
+				after = p
+			case map[string]any:
+				after, _ = p["big"].(string)
+			}
+			if after != "" && after != before {
+				res.Confirmed = true
+				res.Summary = fmt.Sprintf("CONFIRMED: real %s changed its operand %s from %s to %s although the contract's frame forbids it", shortKey(fi.Key), in.name, before, after)
+				return res
+			}
+		}
+		res.Summary = "operands unchanged on the model's inputs"
+		return res
+	}
+	if o.Kind != "post" {
+		res.Summary = "obligation kind " + o.Kind + " has no executable check"
+		return res
+	}
+	ok, why := e.confirmPost(o, ins, obs)
+	res.Confirmed = ok
+	if ok {
+		res.Summary = "CONFIRMED: the clause is false for the real function's result: " + why
+	} else {
+		res.Summary = "not confirmed: " + why
+	}
+	return res
+}
+
+var replayLine = regexp.MustCompile(`REPLAY-JSON (\{.*\})`)
+
+func sortedKeys(m map[string]string) []string {
+	var ks []string
+	for k := range m {
+		ks = append(ks, k)
+	}
+	for i := 1; i < len(ks); i++ {
+		for j := i; j > 0 && ks[j] < ks[j-1]; j-- {
+			ks[j], ks[j-1] = ks[j-1], ks[j]
+		}
+	}
+	return ks
+}
+
+func parseGetValue(out string, n int) []string {
+	// find the last top-level "((" block
+	idx := strings.Index(out, "((")
+	if idx < 0 {
+		return nil
+	}
+	body, _ := readSexp(out[idx:])
+	if len(body) < 2 {
+		return nil
+	}
+	inner := body[1 : len(body)-1]
+	var vals []string
+	pos := 0
+	for len(vals) < n {
+		pair, k := readSexp(inner[pos:])
+		if pair == "" {
+			break
+		}
+		pos += k
+		p := strings.TrimSpace(pair)
+		p = p[1 : len(p)-1]
+		_, k1 := readSexp(p)
+		v, _ := readSexp(p[k1:])
+		vals = append(vals, strings.Join(strings.Fields(v), " "))
+	}
+	if len(vals) != n {
+		return nil
+	}
+	return vals
+}
+
+func (c *FnCtx) isValueType(t types.Type) bool { return c.isMemStruct(t) }
+
+func isBigIntPtr(t types.Type) bool {
+	p, ok := types.Unalias(t).(*types.Pointer)
+	if !ok {
+		return false
+	}
+	s := types.TypeString(p.Elem(), nil)
+	return s == RepoModule+"/value.BigInt" || s == "math/big.Int"
+}
+
+// replayTerms lists the SMT terms whose model values determine input v.
+func (c *FnCtx) replayTerms(in *replayInput, v Val) bool {
+	t := c.subst(in.typ)
+	if _, _, ok := intInfo(t); ok {
+		in.terms["v"] = v.T
+		return true
+	}
+	if _, ok := isFloat(t); ok {
+		in.terms["v"] = v.T
+		return true
+	}
+	if b, ok := t.Underlying().(*types.Basic); ok && b.Info()&types.IsBoolean != 0 {
+		in.terms["v"] = v.T
+		return true
+	}
+	if c.isValueType(t) {
+		in.terms["flag"] = app(c.fieldAcc(t, "flag"), v.T)
+		in.terms["data"] = app(c.fieldAcc(t, "data"), v.T)
+		in.terms["ptr"] = app(c.fieldAcc(t, "ptr"), v.T)
+		in.terms["big"] = c.ghostGet(c.entry, "bigval", app(c.fieldAcc(t, "ptr"), v.T))
+		return true
+	}
+	if isBigIntPtr(t) {
+		in.terms["ptr"] = v.T
+		in.terms["big"] = c.ghostGet(c.entry, "bigval", v.T)
+		return true
+	}
+	return false
+}
+
+func modelInt(v string) (string, bool) { return evalIntModel(v) }
+
+// fpModelToGo turns an SMT FP model value into a Go expression of type float64/float32.
+func fpModelToGo(v string, bits int) (string, bool) {
+	v = strings.TrimSpace(v)
+	fn := "math.Float64frombits"
+	if bits == 32 {
+		fn = "math.Float32frombits"
+	}
+	switch {
+	case strings.HasPrefix(v, "(fp "):
+		parts := strings.Fields(strings.TrimSuffix(strings.TrimPrefix(v, "(fp "), ")"))
+		if len(parts) != 3 {
+			return "", false
+		}
+		bin := ""
+		for _, p := range parts {
+			switch {
+			case strings.HasPrefix(p, "#b"):
+				bin += p[2:]
+			case strings.HasPrefix(p, "#x"):
+				for _, h := range p[2:] {
+					var n int
+					fmt.Sscanf(string(h), "%x", &n)
+					bin += fmt.Sprintf("%04b", n)
+				}
+			default:
+				return "", false
+			}
+		}
+		return fmt.Sprintf("%s(0b%s)", fn, bin), true
+	case strings.Contains(v, "+zero"):
+		return fn + "(0)", true
+	case strings.Contains(v, "-zero"):
+		if bits == 32 {
+			return fn + "(1<<31)", true
+		}
+		return fn + "(1<<63)", true
+	case strings.Contains(v, "+oo"):
+		if bits == 32 {
+			return "float32(math.Inf(1))", true
+		}
+		return "math.Inf(1)", true
+	case strings.Contains(v, "-oo"):
+		if bits == 32 {
+			return "float32(math.Inf(-1))", true
+		}
+		return "math.Inf(-1)", true
+	case strings.Contains(v, "NaN"):
+		if bits == 32 {
+			return "float32(math.NaN())", true
+		}
+		return "math.NaN()", true
+	}
+	return "", false
+}
+
+// goInputExpr builds the Go expression constructing input `in` inside package pkgName.
+func (c *FnCtx) goInputExpr(in *replayInput, q func(string) string) (string, error) {
+	t := c.subst(in.typ)
+	tn := types.TypeString(t, func(p *types.Package) string {
+		if p == c.Fn.Pkg.Types {
+			return ""
+		}
+		return p.Name()
+	})
+	if bits, _, ok := intInfo(t); ok {
+		iv, ok := modelInt(in.vals["v"])
+		if !ok {
+			return "", fmt.Errorf("non-integer model value %q", in.vals["v"])
+		}
+		_ = bits
+		return fmt.Sprintf("%s(%s)", tn, iv), nil
+	}
+	if bits, ok := isFloat(t); ok {
+		g, ok := fpModelToGo(in.vals["v"], bits)
+		if !ok {
+			return "", fmt.Errorf("float model value %q", in.vals["v"])
+		}
+		return fmt.Sprintf("%s(%s)", tn, g), nil
+	}
+	if b, ok := t.Underlying().(*types.Basic); ok && b.Info()&types.IsBoolean != 0 {
+		return fmt.Sprintf("%s(%s)", tn, in.vals["v"]), nil
+	}
+	if isBigIntPtr(t) {
+		pv, _ := modelInt(in.vals["ptr"])
+		if pv == "0" {
+			return "(" + tn + ")(nil)", nil
+		}
+		bv, ok := modelInt(in.vals["big"])
+		if !ok {
+			return "", fmt.Errorf("bad bigval")
+		}
+		return fmt.Sprintf("(%s)(verifBig(%q))", tn, bv), nil
+	}
+	if c.isValueType(t) {
+		flag, _ := modelInt(in.vals["flag"])
+		data, _ := modelInt(in.vals["data"])
+		ptr, _ := modelInt(in.vals["ptr"])
+		vq := q("value")
+		switch flag {
+		case c.constInt("SMALL_INT_FLAG"):
+			return fmt.Sprintf("%sSmallInt(verifI64(%q)).ToValue()", vq, data), nil
+		case c.constInt("FLOAT_FLAG"):
+			return "", fmt.Errorf("float Value inputs are built from bits not yet supported")
+		case c.constInt("REFERENCE_FLAG"):
+			if data == c.typeTagIfKnown("*"+RepoModule+"/value.BigInt") && ptr != "0" {
+				bv, ok := modelInt(in.vals["big"])
+				if !ok {
+					return "", fmt.Errorf("bad bigval")
+				}
+				return fmt.Sprintf("%sRef((*%sBigInt)(verifBig(%q)))", vq, vq, bv), nil
+			}
+			return "", fmt.Errorf("reference Value of unknown dynamic type (tag %s)", data)
+		case "0":
+			return vq + "Undefined", nil
+		case c.constInt("NIL_FLAG"):
+			return vq + "Nil", nil
+		case c.constInt("BOOL_FLAG"):
+			if data == "0" {
+				return vq + "False", nil
+			}
+			return vq + "True", nil
+		}
+		if c.Fn.Pkg.Types.Name() == "value" {
+			return fmt.Sprintf("Value{flag: %s, data: uintptr(%s)}", flag, data), nil
+		}
+		return "", fmt.Errorf("Value with flag %s", flag)
+	}
+	return "", fmt.Errorf("type %s", t)
+}
+
+func (c *FnCtx) constInt(name string) string {
+	for _, p := range c.E.All {
+		if p.PkgPath == RepoModule+"/value" {
+			if o, ok := p.Types.Scope().Lookup(name).(*types.Const); ok {
+				return o.Val().ExactString()
+			}
+		}
+	}
+	return "?"
+}
+
+func (c *FnCtx) typeTagIfKnown(typeString string) string {
+	if id, ok := c.typeTags[typeString]; ok {
+		return fmt.Sprint(id)
+	}
+	return "?"
+}
+
+func (e *Engine) genReplayTest(c *FnCtx, ins []*replayInput) (string, error) {
+	fi := c.Fn
+	pkgName := fi.Pkg.Types.Name()
+	q := func(p string) string {
+		if p == pkgName {
+			return ""
+		}
+		return p + "."
+	}
+	var b strings.Builder
+	fmt.Fprintf(&b, "package %s\n\nimport (\n\t\"encoding/json\"\n\t\"fmt\"\n\t\"math\"\n\t\"math/big\"\n\t\"testing\"\n", pkgName)
+	if pkgName != "value" {
+		fmt.Fprintf(&b, "\t\"%s/value\"\n", RepoModule)
+	}
+	b.WriteString(")\n\nvar _ = math.Inf\nvar _ = big.NewInt\n\n")
+	b.WriteString("func verifBig(s string) *big.Int { b, _ := new(big.Int).SetString(s, 10); return b }\n\n")
+	b.WriteString("// verifI64 reinterprets an unsigned 64-bit word (as stored in Value.data) as int64\nfunc verifI64(s string) int64 { b, _ := new(big.Int).SetString(s, 10); return int64(b.Uint64()) }\n\n")
+	vq := q("value")
+	fmt.Fprintf(&b, `func verifObsValue(v %sValue) map[string]any {
+	m := map[string]any{}
+	m["undefined"] = v.IsUndefined()
+	m["inspect"] = func() (s string) { defer func() { if r := recover(); r != nil { s = "<inspect panicked>" } }(); return v.Inspect() }()
+	m["flag"] = int(v.ValueFlag())
+	if v.IsSmallInt() {
+		m["small"] = fmt.Sprint(int64(v.AsSmallInt()))
+	}
+	if v.IsReference() {
+		if bi, ok := v.AsReference().(*%sBigInt); ok {
+			m["big"] = bi.ToGoBigInt().String()
+		} else if ob, ok := v.AsReference().(*%sObject); ok {
+			m["object_class"] = ob.Class().Name
+		} else {
+			m["ref_type"] = fmt.Sprintf("%%T", v.AsReference())
+		}
+	}
+	if v.IsFloat() {
+		m["float_bits"] = fmt.Sprint(math.Float64bits(float64(v.AsFloat())))
+	}
+	return m
+}
+
+`, vq, vq, vq)
+	b.WriteString("func TestVerifReplay(t *testing.T) {\n\tobs := map[string]any{}\n")
+	b.WriteString("\tdefer func() {\n\t\tif r := recover(); r != nil {\n\t\t\tobs[\"panic\"] = true\n\t\t\tobs[\"panic_msg\"] = fmt.Sprint(r)\n\t\t}\n\t\tj, _ := json.Marshal(obs)\n\t\tfmt.Println(\"REPLAY-JSON \" + string(j))\n\t}()\n")
+	sig := fi.Sig
+	var argNames []string
+	recvName := ""
+	for _, in := range ins {
+		ex, err := c.goInputExpr(in, q)
+		if err != nil {
+			return "", fmt.Errorf("%s: %v", in.name, err)
+		}
+		fmt.Fprintf(&b, "\tin_%s := %s\n", in.name, ex)
+		if sig.Recv() != nil && in.name == sig.Recv().Name() && recvName == "" {
+			recvName = "in_" + in.name
+		} else {
+			argNames = append(argNames, "in_"+in.name)
+		}
+	}
+	call := ""
+	if sig.Recv() != nil {
+		call = fmt.Sprintf("%s.%s(%s)", recvName, fi.Obj.Name(), strings.Join(argNames, ", "))
+	} else {
+		call = fmt.Sprintf("%s(%s)", fi.Obj.Name(), strings.Join(argNames, ", "))
+	}
+	n := sig.Results().Len()
+	var rs []string
+	for i := 0; i < n; i++ {
+		rs = append(rs, fmt.Sprintf("r%d", i))
+	}
+	if n > 0 {
+		fmt.Fprintf(&b, "\t%s := %s\n", strings.Join(rs, ", "), call)
+	} else {
+		fmt.Fprintf(&b, "\t%s\n", call)
+	}
+	for i := 0; i < n; i++ {
+		rt := c.subst(sig.Results().At(i).Type())
+		switch {
+		case c.isValueType(rt):
+			fmt.Fprintf(&b, "\tobs[\"r%d\"] = verifObsValue(r%d)\n", i, i)
+		case isBigIntPtr(rt):
+			fmt.Fprintf(&b, "\tif r%d != nil { obs[\"r%d\"] = map[string]any{\"big\": (*big.Int)(r%d).String()} } else { obs[\"r%d\"] = map[string]any{\"nil\": true} }\n", i, i, i, i)
+		default:
+			if bits, ok := isFloat(rt); ok {
+				if bits == 32 {
+					fmt.Fprintf(&b, "\tobs[\"r%d\"] = map[string]any{\"float_bits\": fmt.Sprint(math.Float32bits(float32(r%d)))}\n", i, i)
+				} else {
+					fmt.Fprintf(&b, "\tobs[\"r%d\"] = map[string]any{\"float_bits\": fmt.Sprint(math.Float64bits(float64(r%d)))}\n", i, i)
+				}
+			} else {
+				fmt.Fprintf(&b, "\tobs[\"r%d\"] = map[string]any{\"v\": fmt.Sprint(r%d)}\n", i, i)
+			}
+		}
+	}
+	// post-state of big integer operands (frame)
+	for _, in := range ins {
+		t := c.subst(in.typ)
+		if isBigIntPtr(t) {
+			fmt.Fprintf(&b, "\tif in_%s != nil { obs[\"post_%s\"] = (*big.Int)(in_%s).String() }\n", in.name, in.name, in.name)
+		}
+		if c.isValueType(t) {
+			fmt.Fprintf(&b, "\tobs[\"post_%s\"] = verifObsValue(in_%s)\n", in.name, in.name)
+		}
+	}
+	b.WriteString("}\n")
+	return b.String(), nil
+}
+
+func (e *Engine) runOverlayTest(fi *FuncInfo, src string) (string, error) {
+	dir, err := os.MkdirTemp("", "elkvc-replay-")
+	if err != nil {
+		return "", err
+	}
+	defer os.RemoveAll(dir)
+	pkgDir := filepath.Dir(e.Fset.Position(fi.Decl.Pos()).Filename)
+	testFile := filepath.Join(dir, "verif_replay_test.go")
+	os.WriteFile(testFile, []byte(src), 0o644)
+	ov := map[string]any{"Replace": map[string]string{filepath.Join(pkgDir, "verif_replay_test.go"): testFile}}
+	ob, _ := json.Marshal(ov)
+	ovFile := filepath.Join(dir, "overlay.json")
+	os.WriteFile(ovFile, ob, 0o644)
+	cmd := exec.Command("go", "test", "-overlay", ovFile, "-vet=off", "-count=1", "-timeout", "60s", "-run", "^TestVerifReplay$", "-v", ".")
+	cmd.Dir = pkgDir
+	var out bytes.Buffer
+	cmd.Stdout = &out
+	cmd.Stderr = &out
+	done := make(chan error, 1)
+	go func() { done <- cmd.Run() }()
+	select {
+	case err = <-done:
+	case <-time.After(10 * time.Minute):
+		cmd.Process.Kill()
+		err = fmt.Errorf("replay timed out")
+	}
+	return out.String(), err
+}
+
+// confirmPost evaluates the violated postcondition on the concrete inputs and
+// observed outputs: CONFIRMED iff the clause is false for them.
+func (e *Engine) confirmPost(o *Obligation, ins []*replayInput, obs map[string]any) (bool, string) {
+	c0 := o.ctx
+	fi := c0.Fn
+	ct := c0.C
+	var clause *Clause
+	for i := range ct.Ensures {
+		if "post:"+ct.Ensures[i].Label == o.Kind+":"+strings.SplitN(o.Name, "#post:", 2)[1] {
+			clause = &ct.Ensures[i]
+		}
+	}
+	if clause == nil {
+		return false, "clause not found"
+	}
+	c := e.newCtx(fi, ct)
+	c.noSafety = true
+	// type tags must agree with the original context (spec fns use tagof)
+	for k, v := range c0.typeTags {
+		c.typeTags[k] = v
+	}
+	entry := &State{pc: "true", vars: map[types.Object]Val{}, heap: map[string]string{}, epoch: 0, alloc: "1000000"}
+	exit := &State{pc: "true", vars: map[types.Object]Val{}, heap: map[string]string{}, epoch: 1, alloc: "2000000"}
+	c.entry = entry
+	nextAddr := 1000
+	bigEntry := c.heapGet(entry, "GH_bigval", "(Array Int Int)", types.Typ[types.UntypedInt])
+	bigExit := c.heapGet(exit, "GH_bigval", "(Array Int Int)", types.Typ[types.UntypedInt])
+	var why []string
+	mkValue := func(t types.Type, flag, data, ptr string) string {
+		c.sortOf(t)
+		return app("mk_"+c.sortOf(t), data, ptr, flag, "0")
+	}
+	var valueT types.Type
+	for _, p := range e.All {
+		if p.PkgPath == RepoModule+"/value" {
+			valueT = p.Types.Scope().Lookup("Value").Type()
+		}
+	}
+	// inputs
+	for _, in := range ins {
+		t := c.subst(in.typ)
+		var term string
+		switch {
+		case c.isValueType(t):
+			flag, _ := modelInt(in.vals["flag"])
+			data, _ := modelInt(in.vals["data"])
+			ptr, _ := modelInt(in.vals["ptr"])
+			term = mkValue(t, intLit(flag), intLit(data), intLit(ptr))
+			if bv, ok := modelInt(in.vals["big"]); ok && ptr != "0" {
+				bigEntry = app("store", bigEntry, intLit(ptr), intLit(bv))
+				post := bv
+				if pm, ok := obs["post_"+in.name].(map[string]any); ok {
+					if s, ok := pm["big"].(string); ok {
+						post = s
+					}
+				}
+				bigExit = app("store", bigExit, intLit(ptr), intLit(post))
+			}
+		case isBigIntPtr(t):
+			ptr, _ := modelInt(in.vals["ptr"])
+			term = intLit(ptr)
+			if bv, ok := modelInt(in.vals["big"]); ok && ptr != "0" {
+				bigEntry = app("store", bigEntry, intLit(ptr), intLit(bv))
+				post := bv
+				if s, ok := obs["post_"+in.name].(string); ok {
+					post = s
+				}
+				bigExit = app("store", bigExit, intLit(ptr), intLit(post))
+			}
+		default:
+			if _, isF := isFloat(t); isF {
+				term = in.vals["v"]
+			} else if iv, ok := modelInt(in.vals["v"]); ok {
+				term = intLit(iv)
+			} else {
+				term = in.vals["v"]
+			}
+		}
+		c.paramVals[in.name] = Val{T: term, Typ: in.typ}
+		why = append(why, fmt.Sprintf("%s=%s", in.name, describeInput(in)))
+	}
+	// outputs
+	sig := fi.Sig
+	m := map[string]Val{}
+	_, _, resn := c.paramNames(fi.Obj, ct)
+	for i := 0; i < sig.Results().Len(); i++ {
+		rt := c.subst(sig.Results().At(i).Type())
+		om, _ := obs[fmt.Sprintf("r%d", i)].(map[string]any)
+		if om == nil {
+			return false, "missing observation of result"
+		}
+		var term string
+		switch {
+		case c.isValueType(rt):
+			flag := fmt.Sprint(int(om["flag"].(float64)))
+			switch {
+			case om["small"] != nil:
+				sv := om["small"].(string)
+				term = mkValue(rt, flag, app("wrapU64", intLit(sv)), "0")
+			case om["big"] != nil:
+				nextAddr++
+				addr := fmt.Sprint(2000000 + nextAddr)
+				bigExit = app("store", bigExit, addr, intLit(om["big"].(string)))
+				term = mkValue(rt, flag, c.typeTag(types.NewPointer(lookupType(e, "BigInt"))), addr)
+			case om["object_class"] != nil:
+				nextAddr++
+				addr := fmt.Sprint(2000000 + nextAddr)
+				objT := lookupType(e, "Object")
+				term = mkValue(rt, flag, c.typeTag(types.NewPointer(objT)), addr)
+				// class identity: the global class variable with the same name + "Class"
+				cls := om["object_class"].(string)
+				if i := strings.LastIndex(cls, "::"); i >= 0 {
+					cls = cls[i+2:]
+				}
+				if g := lookupVar(e, cls+"Class"); g != nil {
+					gv := c.globalVar(&Env{st: exit, spec: true}, g)
+					_, stt, _ := c.structOf(objT)
+					for k := 0; k < stt.NumFields(); k++ {
+						if stt.Field(k).Name() == "class" {
+							c.writeField(exit, addr, objT, stt.Field(k), gv.T)
+						}
+					}
+					// distinct class globals are distinct objects
+					c.facts = append(c.facts, app(">", gv.T, "0"))
+				}
+			case om["float_bits"] != nil:
+				term = mkValue(rt, flag, intLit(om["float_bits"].(string)), "0")
+			default:
+				if om["undefined"] == true {
+					term = mkValue(rt, "0", "0", "0")
+				} else {
+					return false, "result value not representable: " + fmt.Sprint(om)
+				}
+			}
+		case isBigIntPtr(rt):
+			if om["nil"] == true {
+				term = "0"
+			} else {
+				nextAddr++
+				addr := fmt.Sprint(2000000 + nextAddr)
+				bigExit = app("store", bigExit, addr, intLit(om["big"].(string)))
+				term = addr
+			}
+		default:
+			if bits, isF := isFloat(rt); isF {
+				_, fb := c.fpBits(bits)
+				term = app(fb, intLit(om["float_bits"].(string)))
+				// exact bits: use to_fp from bit-vector instead of the uninterpreted bijection
+				if bits == 64 {
+					term = fmt.Sprintf("((_ to_fp 11 53) ((_ int2bv 64) %s))", intLit(om["float_bits"].(string)))
+				} else {
+					term = fmt.Sprintf("((_ to_fp 8 24) ((_ int2bv 32) %s))", intLit(om["float_bits"].(string)))
+				}
+			} else {
+				s, _ := om["v"].(string)
+				switch s {
+				case "true", "false":
+					term = s
+				default:
+					term = intLit(s)
+				}
+			}
+		}
+		v := Val{T: term, Typ: rt}
+		if i < len(resn) && resn[i] != "" && resn[i] != "_" {
+			m[resn[i]] = v
+		}
+		m[fmt.Sprintf("ret%d", i)] = v
+		if sig.Results().Len() == 1 {
+			m["ret"] = v
+		}
+		why = append(why, fmt.Sprintf("result%d=%v", i, om))
+	}
+	_ = valueT
+	entry.heap["GH_bigval"] = bigEntry
+	exit.heap["GH_bigval"] = bigExit
+	postEnv := &Env{st: exit, spec: true, old: entry, spkg: fi.Pkg.Types,
+		lookup: func(n string) (Val, bool) {
+			if v, ok := m[n]; ok {
+				return v, true
+			}
+			v, ok := c.paramVals[n]
+			return v, ok
+		}}
+	var g Val
+	var evalErr string
+	func() {
+		defer func() {
+			if r := recover(); r != nil {
+				if u, ok := r.(unsupported); ok {
+					evalErr = u.msg
+					return
+				}
+				panic(r)
+			}
+		}()
+		g = c.eval(postEnv, clause.Expr)
+	}()
+	if evalErr != "" {
+		return false, "cannot evaluate clause concretely: " + evalErr
+	}
+	build := func(neg bool) string {
+		var b strings.Builder
+		b.WriteString("(set-logic ALL)\n" + prelude)
+		for _, d := range c.decls {
+			b.WriteString(d + "\n")
+		}
+		for _, f := range c.facts {
+			b.WriteString("(assert " + f + ")\n")
+		}
+		if neg {
+			b.WriteString("(assert (not " + g.T + "))\n")
+		} else {
+			b.WriteString("(assert " + g.T + ")\n")
+		}
+		b.WriteString("(check-sat)\n")
+		return b.String()
+	}
+	rTrue := RunSMT(build(false), 20, 0, false, nil)
+	rFalse := RunSMT(build(true), 20, 0, false, nil)
+	desc := strings.Join(why, ", ")
+	if rTrue.Status == "unsat" && rFalse.Status != "unsat" {
+		return true, desc
+	}
+	if rFalse.Status == "unsat" {
+		return false, "the clause holds for the real result (" + desc + "): the symbolic counterexample does not correspond to a real execution"
+	}
+	return false, "clause value undetermined on the concrete observation (" + desc + ")"
+}
+
+func describeInput(in *replayInput) string {
+	if v, ok := in.vals["v"]; ok {
+		return v
+	}
+	var parts []string
+	for _, k := range sortedKeys(in.vals) {
+		parts = append(parts, k+":"+in.vals[k])
+	}
+	return "{" + strings.Join(parts, " ") + "}"
+}
+
+func lookupType(e *Engine, name string) types.Type {
+	for _, p := range e.All {
+		if p.PkgPath == RepoModule+"/value" {
+			if o := p.Types.Scope().Lookup(name); o != nil {
+				return o.Type()
+			}
+		}
+	}
+	return nil
+}
+
+func lookupVar(e *Engine, name string) *types.Var {
+	for _, p := range e.All {
+		if p.PkgPath == RepoModule+"/value" {
+			if o, ok := p.Types.Scope().Lookup(name).(*types.Var); ok {
+				return o
+			}
+		}
+	}
 	return nil
 }
